@@ -129,6 +129,11 @@ class Report:
             "exhaustive": True,
             "known_findings_reported": [w for _, w in self.known_hits],
         }
+        if os.environ.get("LHSA_DUMP_INSTANCES"):
+            with open(os.environ["LHSA_DUMP_INSTANCES"], "a") as f_:
+                for rid in self.order:
+                    for i in self.rules[rid]["instances"]:
+                        f_.write(json.dumps({"prop": self.prop, "rule": rid, "where": i.get("where"), "instance": i.get("instance"), "status": i.get("status")}) + "\n")
         from .build import vanished_anchors
         gone = vanished_anchors(self.prop)
         for g in gone:
